@@ -14,6 +14,11 @@ Sampled  as INPUTS of the model (abstracted submodules): the setup decoder's pac
          forwarded handshake, the handler's own claim / ack / stall / start strobes / ready, and the registers (both FSM
          states, start_position, tx_data_pid, expecting_ack).
 Monitor  the cycle-level facts behind C07/C08/C10 stated on the real trace (see `monitor`).
+
+Additional request handlers (spec["handlers"], devharness.make_handler; 0-2 per case): added with `add_request_handler`
+after the standard handlers, so the real `USBRequestHandlerMultiplexer` has 1-3 interfaces + the stall-only fallback.
+Their interface outputs are sampled as INPUTS of the model (15 values per handler, Model/Usb2/ControlCycX.lean `stepX`:
+the handlers are abstract, the multiplexer is the model's).
 """
 import multiprocessing
 import traceback
@@ -44,6 +49,14 @@ NAMES_OUT = ["ack", "nak", "stall", "txValid", "txFirst", "txLast", "txPayload",
              # inputs for the distributed handler); expected = the real handler's outputs of the same cycle
              "blk.valid", "blk.first", "blk.last", "blk.payload", "blk.stall"]
 
+NAMES_X = ["claim", "ack", "stall", "txValid", "txFirst", "txLast", "txPayload", "txDataPid", "addressChanged",
+           "newAddress", "configChanged", "newConfig", "cehEnable", "cehDirection", "cehNumber"]
+
+
+def names_in(nx):
+    return NAMES_IN + ["x%d.%s" % (k, n) for k in range(nx) for n in NAMES_X]
+
+
 STAGES = ["SETUP", "DATA_IN", "DATA_OUT", "STATUS_IN", "STATUS_OUT"]
 HSTATES = ["IDLE", "GET_STATUS", "CLEAR_FEATURE", "SET_ADDRESS", "SET_CONFIGURATION", "GET_DESCRIPTOR",
            "GET_CONFIGURATION", "UNHANDLED"]
@@ -56,7 +69,7 @@ class _Built:
     pass
 
 
-def build(desc_table, ep_num, mps, avoid_blockram=False):
+def build(desc_table, ep_num, mps, avoid_blockram=False, handlers=()):
     """Elaborates the real control endpoint; returns the fragment to simulate and the signals to drive / sample.
     The objects created inside `elaborate` (setup decoder, transmitter, descriptor handler, the two FSMs) are
     captured by wrapping the instances' `elaborate` -- observation only, nothing is changed."""
@@ -74,6 +87,9 @@ def build(desc_table, ep_num, mps, avoid_blockram=False):
         coll.add_descriptor(bytes(b), index=i, descriptor_type=t)
     ep.add_standard_request_handlers(coll, avoid_blockram=bool(avoid_blockram))
     handler = ep._request_handlers[0]
+    extra = [DH.make_handler(h) for h in handlers]
+    for x in extra:
+        ep.add_request_handler(x)
     cap = {}
 
     def wrap(obj, key):
@@ -99,7 +115,7 @@ def build(desc_table, ep_num, mps, avoid_blockram=False):
 
     frag = Fragment.get(Top(), None)
     b = _Built()
-    b.frag, b.utmi, b.ep, b.handler = frag, utmi, ep, handler
+    b.frag, b.utmi, b.ep, b.handler, b.extra = frag, utmi, ep, handler, extra
     epm, hm = cap["ep"], cap["handler"]
     def sub(m, name):
         x = m._named_submodules[name]
@@ -138,6 +154,11 @@ def signal_lists(b):
         d.tx.valid, d.tx.first, d.tx.last, d.tx.payload, d.stall,
         t.stream.valid, t.stream.first, t.stream.last, t.stream.payload,
     ]
+    for x in b.extra:          # additional request handlers -> model inputs (order = NAMES_X)
+        xi = x.interface
+        sampled_in += [xi.claim, xi.handshakes_out.ack, xi.handshakes_out.stall, xi.tx.valid, xi.tx.first, xi.tx.last,
+                       xi.tx.payload, xi.tx_data_pid, xi.address_changed, xi.new_address, xi.config_changed, xi.new_config,
+                       xi.clear_endpoint_halt.enable, xi.clear_endpoint_halt.direction, xi.clear_endpoint_halt.number]
     ceh = i.clear_endpoint_halt_out
     outs = [
         i.handshakes_out.ack, i.handshakes_out.nak, i.handshakes_out.stall,
@@ -256,6 +277,12 @@ class MicroHost:
     def transfer(self):
         rng, ep0 = self.rng, self.ep_num
         kind, su = dev_ctl.rand_setup(rng, self.spec, self.profile)
+        if self.spec.get("handlers") and rng.chance(40):
+            # a request one of the additional handlers claims (both directions, with and without data stage)
+            h = rng.choice(self.spec["handlers"])
+            kind = "extra-handler"
+            su = DH.setup_bytes((h[1] << 5) | rng.choice([0x00, 0x00, 0x80, 0x01]), h[2], rng.below(65536), rng.below(65536),
+                                rng.choice([0, 0, 0, 2, 8]))
         self.tags.add("req:" + kind)
         is_in, length = bool(su[0] & 0x80), su[6] | (su[7] << 8)
         tgt = ep0 if rng.chance(92) else rng.choice([e for e in range(16) if e != ep0])
@@ -360,10 +387,16 @@ class MicroHost:
 # ----------------------------------------------------------------------------- one case
 def make_cyc_spec(rng):
     shape = rng.weighted([(4, "std"), (3, "long"), (2, "sparse"), (1, "tiny")])
-    return {"shape": shape, "desc": DH.descriptor_table(shape, rng), "eps": [], "handlers": [],
+    spec = {"shape": shape, "desc": DH.descriptor_table(shape, rng), "eps": [], "handlers": [],
             "ep_num": rng.weighted([(5, 0), (1, rng.range(1, 15))]), "mps": rng.choice([64, 64, 64, 32, 16, 8]),
             # the descriptor handler is an INPUT of the model: exercise both implementations (their stall / stream timing differs)
             "avoid_blockram": int(rng.chance(30))}
+    # additional request handlers behind the multiplexer (drawn last: the draws above are those of the earlier versions):
+    # vendor / class requests, the SAME request twice (two claimants), a standard request (claimed by the standard handler too)
+    hr = rng.fork("handlers")
+    for _ in range(hr.weighted([(5, 0), (3, 1), (2, 2)])):
+        spec["handlers"].append(["zlpreg", hr.weighted([(4, 2), (3, 1), (2, 0)]), hr.choice([0x20, 0x22, 0x20, 5, 6, 9])])
+    return spec
 
 
 def simulate(b, host_gen, max_cycles):
@@ -405,7 +438,7 @@ def simulate(b, host_gen, max_cycles):
     return rows_d, rows_i, rows_o
 
 
-def monitor(b, ep_num, rows_d, rows_i, rows_o, consistent_flags):
+def monitor(b, ep_num, rows_d, rows_i, rows_o, consistent_flags, nx=0, mps=64):
     """The one-step facts behind C07 / C08 / C10 on the REAL trace (independent of the Lean model)."""
     fails = []
     O = {n: k for k, n in enumerate(NAMES_OUT)}
@@ -448,24 +481,28 @@ def monitor(b, ep_num, rows_d, rows_i, rows_o, consistent_flags):
         stage, hst = ST[o[O["stage"]]], HS[o[O["hstate"]]]
         own_in = d["endpoint"] == ep_num and d["is_in"] == 1
         su_type, su_value = si[3], si[6]
+        # who claims the request: the standard handler claims exactly the standard requests; additional handlers by their outputs
+        xcl = [k for k in range(nx) if si[18 + 15 * k]]
+        n_claims = (1 if su_type == 0 else 0) + len(xcl)
+        std_owner = su_type == 0 and not xcl       # the standard handler is the only claimant: its outputs are the shared ones
         # handshakes reach the handlers only for an IN transaction of this endpoint
         if o[O["hsAckForwarded"]] and not (d["hs_ack"] and own_in):
             fail(t, "c07cyc-handshake-forwarded-foreign", "handshakes_in.ack reached the request handler although the last "
                  "token is not an IN for endpoint %d (endpoint=%d is_in=%d ack=%d)" % (ep_num, d["endpoint"], d["is_in"], d["hs_ack"]))
         # the address / configuration strobes
-        if o[O["addressChanged"]]:
+        if o[O["addressChanged"]] and not (n_claims == 1 and xcl):     # (an additional handler that owns the request may strobe)
             if not (d["hs_ack"] and own_in and hst == "SET_ADDRESS" and su_type == 0):
                 fail(t, "c07cyc-address-strobe-ungated", "address_changed outside (own IN token, host ACK, SET_ADDRESS): "
                      "state %s endpoint=%d is_in=%d ack=%d" % (hst, d["endpoint"], d["is_in"], d["hs_ack"]))
             elif o[O["newAddress"]] != (su_value & 0x7F):
                 fail(t, "c07cyc-address-value", "new_address %d != wValue[6:0] %d" % (o[O["newAddress"]], su_value & 0x7F))
-        if o[O["configChanged"]]:
+        if o[O["configChanged"]] and not (n_claims == 1 and xcl):
             if not (d["hs_ack"] and own_in and hst == "SET_CONFIGURATION" and su_type == 0):
                 fail(t, "c07cyc-config-strobe-ungated", "config_changed outside (own IN token, host ACK, SET_CONFIGURATION): "
                      "state %s endpoint=%d is_in=%d ack=%d" % (hst, d["endpoint"], d["is_in"], d["hs_ack"]))
             elif o[O["newConfig"]] != (su_value & 0xFF):
                 fail(t, "c07cyc-config-value", "new_config %d != wValue[7:0] %d" % (o[O["newConfig"]], su_value & 0xFF))
-        if d["hs_ack"] and own_in and su_type == 0 and hst == "SET_ADDRESS" and not o[O["addressChanged"]]:
+        if d["hs_ack"] and own_in and std_owner and hst == "SET_ADDRESS" and not o[O["addressChanged"]]:
             fail(t, "c07cyc-address-strobe-missing", "host ACK of the own IN transaction in SET_ADDRESS without address_changed")
         # requests to the handlers come from the right stage only, and only for this endpoint
         if o[O["dataRequested"]] and not (stage == "DATA_IN" and own_in and d["ready_for_response"]):
@@ -478,9 +515,39 @@ def monitor(b, ep_num, rows_d, rows_i, rows_o, consistent_flags):
             if not o[O["stall"]] or o[O["txValid"]] or (o[O["ack"]] and not si[1]):
                 fail(t, "c07cyc-unhandled-not-stalled", "UNHANDLED request polled but stall=%d tx_valid=%d ack=%d"
                      % (o[O["stall"]], o[O["txValid"]], o[O["ack"]]))
-        # a request nobody claims is stalled by the fallback handler
-        if su_type != 0 and (o[O["dataRequested"]] or o[O["statusRequested"]]) and not o[O["stall"]]:
-            fail(t, "c07cyc-unclaimed-not-stalled", "non-standard request polled without STALL")
+        # the request multiplexer: the standard handler claims exactly the standard requests; the shared outputs are those
+        # of the ONLY claiming handler; a request nobody claims, or more than one handler claims, is stalled by the fallback
+        polled = o[O["dataRequested"]] or o[O["statusRequested"]]
+        if bool(o[O["h.claim"]]) != (su_type == 0):
+            fail(t, "c07cyc-standard-claim", "standard handler claim=%d for request type %d" % (o[O["h.claim"]], su_type))
+        if n_claims == 0 and polled and not o[O["stall"]]:
+            fail(t, "c07cyc-unclaimed-not-stalled", "request that no handler claims polled without STALL")
+        if n_claims >= 2 and polled and not o[O["stall"]]:
+            fail(t, "c07cyc-multiply-claimed-not-stalled", "request claimed by %d handlers polled without STALL" % n_claims)
+        if n_claims != 1 and (o[O["txValid"]] or o[O["addressChanged"]] or o[O["configChanged"]] or o[O["cehEnable"]]):
+            fail(t, "c07cyc-unowned-request-drives", "%d claiming handlers but tx.valid=%d address_changed=%d config_changed=%d"
+                 % (n_claims, o[O["txValid"]], o[O["addressChanged"]], o[O["configChanged"]]))
+        if n_claims == 1 and xcl:
+            x = si[18 + 15 * xcl[0]: 18 + 15 * xcl[0] + 15]
+            got = (o[O["stall"]], o[O["txValid"]], o[O["txFirst"]], o[O["txLast"]], o[O["txPayload"]], o[O["txPidToggle"]],
+                   o[O["addressChanged"]], o[O["newAddress"]], o[O["configChanged"]], o[O["newConfig"]])
+            want = (x[2], x[3], x[4], x[5], x[6], x[7], x[8], x[9], x[10], x[11])
+            if got != want:
+                fail(t, "c07cyc-mux-not-transparent", "additional handler %d is the only claimant but the shared outputs %r differ "
+                     "from its outputs %r" % (xcl[0], got, want))
+        # GET_DESCRIPTOR: the gated host ACK of a data packet advances start_position by max_packet_size (11-bit register) and
+        # toggles the data PID; start_position changes in no other way except back to 0 (new SETUP packet, IDLE)
+        if t + 1 < n:
+            sp, sp1 = o[O["startPos"]], rows_o[t + 1][O["startPos"]]
+            adv = bool(o[O["hsAckForwarded"]] and hst == "GET_DESCRIPTOR" and o[O["expectingAck"]] and su_type == 0)
+            if adv and not si[0]:
+                if sp1 != (sp + mps) % 2048:
+                    fail(t, "c07cyc-start-position-advance", "host ACK of a GET_DESCRIPTOR data packet: start_position %d -> %d, "
+                         "expected %d (max_packet_size %d)" % (sp, sp1, (sp + mps) % 2048, mps))
+                if rows_o[t + 1][O["txPid"]] == o[O["txPid"]]:
+                    fail(t, "c07cyc-data-pid-not-toggled", "host ACK of a GET_DESCRIPTOR data packet without data PID toggle")
+            elif sp1 != sp and sp1 != 0:
+                fail(t, "c07cyc-start-position-changed", "start_position %d -> %d without an acknowledged data packet" % (sp, sp1))
         # every SETUP token restarts the stage FSM
         if t + 1 < n and consistent_flags[t] and d["new_token"] and d["is_setup"] and not si[0]:
             nxt = ST[rows_o[t + 1][O["stage"]]]
@@ -500,7 +567,9 @@ def run_cyc(desc):
     rng = Rng(desc["seed"])
     spec = desc.get("spec") or make_cyc_spec(rng.fork("spec"))
     ep_num, mps = spec["ep_num"], spec["mps"]
-    b = build(spec["desc"], ep_num, mps, spec.get("avoid_blockram", 0))
+    handlers = spec.get("handlers", [])
+    nx = len(handlers)
+    b = build(spec["desc"], ep_num, mps, spec.get("avoid_blockram", 0), handlers)
     tags = set()
     host = MicroHost(rng.fork("host"), spec, ep_num, tags, desc.get("profile", "c07"))
     consistent = []
@@ -529,7 +598,7 @@ def run_cyc(desc):
     ks, kh = NAMES_OUT.index("stage"), NAMES_OUT.index("hstate")
     for o in outputs:
         o[ks], o[kh] = smap[o[ks]], hmap[o[kh]]
-    fails = monitor(b, ep_num, rows_d, rows_i, rows_o, consistent[:len(rows_o)] + [False] * len(rows_o))
+    fails = monitor(b, ep_num, rows_d, rows_i, rows_o, consistent[:len(rows_o)] + [False] * len(rows_o), nx, mps)
     for o in outputs:
         tags.add("stage:" + STAGES[o[ks]])
         tags.add("hstate:" + HSTATES[o[kh]])
@@ -543,15 +612,25 @@ def run_cyc(desc):
     if any(o[NAMES_OUT.index("startPos")] for o in outputs):
         tags.add("seen:startPos>0")
     tags.add("mps:%d" % mps)
+    if mps < 64 and any(o[NAMES_OUT.index("startPos")] for o in outputs):
+        tags.add("seen:startPos>0:mps<64")
+    tags.add("extra-handlers:%d" % nx)
+    kq = [NAMES_OUT.index(n) for n in ("dataRequested", "statusRequested", "stall", "txValid")]
+    for o, si in zip(outputs, rows_i):
+        ncl = (1 if si[3] == 0 else 0) + sum(1 for k in range(nx) if si[18 + 15 * k])
+        if o[kq[0]] or o[kq[1]]:
+            tags.add("polled:claims=%d%s" % (min(ncl, 2), "" if si[3] == 0 else ":nonstd"))
+        if nx and ncl == 1 and si[3] != 0 and o[kq[3]]:
+            tags.add("seen:extra-handler-transmits")
     tags.add("descriptor-handler:%s" % ("distributed" if spec.get("avoid_blockram") else "block"))
     tags.add("ep:%s" % ("0" if ep_num == 0 else "other"))
     d2 = dict(desc)
     d2["spec"] = spec
     # the descriptor table for the block handler model in the loop (kind 0), in insertion order
-    cfg = [ep_num, mps, 1 if spec.get("avoid_blockram") else 0, len(spec["desc"])]
+    cfg = [ep_num, mps, (1 if spec.get("avoid_blockram") else 0) + 2 * nx, len(spec["desc"])]
     for t, i, bts in spec["desc"]:
         cfg += [t, i, len(bts)] + list(bts)
-    return {"cfg": cfg, "inputs": inputs, "outputs": outputs, "failures": fails, "tags": sorted(tags), "desc": d2}
+    return {"cfg": cfg, "inputs": inputs, "outputs": outputs, "failures": fails, "tags": sorted(tags), "desc": d2, "nx": nx}
 
 
 def run_case(desc):
@@ -559,7 +638,7 @@ def run_case(desc):
     `extra_checks` (their driver is not the property's DRIVER)."""
     r = run_cyc(desc)
     return Case(r["cfg"], r["inputs"], r["outputs"], r["failures"], ["cyc:" + t for t in r["tags"]], r["desc"],
-                NAMES_IN, NAMES_OUT, lean=False)
+                names_in(r["nx"]), NAMES_OUT, lean=False)
 
 
 # ----------------------------------------------------------------------------- the check-independent co-simulation
@@ -607,7 +686,7 @@ def _work(descs):
                 if gv != exp:
                     k = next(k for k in range(len(exp)) if k >= len(gv) or gv[k] != exp[k])
                     dis = {"cycle": t, "port": NAMES_OUT[k], "gateware": exp[k], "model": gv[k] if k < len(gv) else None,
-                           "inputs": dict(zip(NAMES_IN, r["inputs"][t]))}
+                           "inputs": dict(zip(names_in(r["nx"]), r["inputs"][t]))}
                     break
             out.append({"desc": {k: v for k, v in r["desc"].items() if k != "spec"}, "cycles": len(r["inputs"]),
                         "compared": ncmp, "disagree": dis, "failures": r["failures"], "tags": r["tags"],
